@@ -46,6 +46,8 @@ func vCatchCrash(f func()) bool
 func vIsSym(x any) bool
 func vHang(what string)
 func vNative() bool
+func vHeld() int
+func vSyncMapPut(m *sync.Map, k, v any) bool
 `
 
 // Edit is a textual mutation of a repository file, applied in the overlay only.
@@ -104,7 +106,7 @@ func buildOverlay(repo, pkg, hdir string, edits []Edit) (map[string][]byte, erro
 		}
 		overlay[filepath.Join(repo, pkg, "zz_verif_"+filepath.Base(f))] = b
 	}
-	overlay[filepath.Join(repo, pkg, "zz_verif_rt.go")] = []byte("package " + pkgName + "\n" + intrinsicDecls)
+	overlay[filepath.Join(repo, pkg, "zz_verif_rt.go")] = []byte("package " + pkgName + "\n\nimport \"sync\"\n" + intrinsicDecls)
 	for _, e := range edits {
 		path := filepath.Join(repo, e.File)
 		b, ok := overlay[path]
